@@ -52,7 +52,8 @@ def _array_gc_order(v, events):
     being a silent content difference (no error anywhere in the trace)."""
     if v["tag"] not in ("RefEquiv", "Converged", "BuildEquiv"):
         return False
-    if any(e.get("err") for e in events if e["ev"] in ("Sync", "Attach", "Detach", "Ref", "Build", "Undo", "Redo")):
+    if any(e.get("err") and "injected storage fault" not in e["err"] for e in events
+           if e["ev"] in ("Sync", "Attach", "Detach", "Ref", "Build", "Undo", "Redo")):
         return False
     deleted = {}   # value -> set of clients that deleted it
     anchors = []   # (client, value)
@@ -80,7 +81,8 @@ def _text_gc_order(v, events):
     import json as _json
     if v["tag"] not in ("RefEquiv", "Converged", "BuildEquiv"):
         return False
-    if any(e.get("err") for e in events if e["ev"] in ("Sync", "Attach", "Detach", "Ref", "Build", "Undo", "Redo")):
+    if any(e.get("err") and "injected storage fault" not in e["err"] for e in events
+           if e["ev"] in ("Sync", "Attach", "Detach", "Ref", "Build", "Undo", "Redo")):
         return False
     deleters, inserters = set(), set()
     for e in events:
